@@ -231,6 +231,36 @@ structure HostOps (σ : Type) where
   sentinel : Obj → Bool
   exportRoot : Obj
 
+/-- credentials after a successful `setresuid(-1, u, -1)` (real and saved uid stay 0): leaving
+    euid 0 clears the effective capability set, returning to euid 0 copies permitted to effective -/
+def Creds.afterSetuid (c : Creds) (u : Nat) : Creds :=
+  { c with euid := u,
+           effFsetid := if u = 0 then (if c.euid = 0 then c.effFsetid else c.permFsetid) else false }
+
+/-- The laws of the host the theorems rely on.  `Fbr.Lemmas.HostRef` proves them for the reference
+    FS; the correspondence run checks the reference FS's answers against the real kernel's. -/
+class HostLaws {σ : Type} (H : HostOps σ) : Prop where
+  /-- only setresuid / setresgid / capset change the thread's credentials -/
+  creds_other : ∀ s c, c.isCred = false → H.creds (H.step s c).2 = H.creds s
+  /-- `setresgid(-1, g, -1)` either fails and changes nothing or sets the effective gid -/
+  setresgid_spec : ∀ s g,
+    ((H.step s (.setresgid g)).1 = .ok ∧ H.creds (H.step s (.setresgid g)).2 = { H.creds s with egid := g }) ∨
+    ((∃ e, (H.step s (.setresgid g)).1 = .err e) ∧ H.creds (H.step s (.setresgid g)).2 = H.creds s)
+  /-- the real gid is 0, so going back to gid 0 is always permitted -/
+  setresgid_zero : ∀ s, (H.step s (.setresgid 0)).1 = .ok
+  setresuid_spec : ∀ s u,
+    ((H.step s (.setresuid u)).1 = .ok ∧ H.creds (H.step s (.setresuid u)).2 = (H.creds s).afterSetuid u) ∨
+    ((∃ e, (H.step s (.setresuid u)).1 = .err e) ∧ H.creds (H.step s (.setresuid u)).2 = H.creds s)
+  /-- the real uid is 0, so going back to uid 0 is always permitted -/
+  setresuid_zero : ∀ s, (H.step s (.setresuid 0)).1 = .ok
+  capset_spec : ∀ s b,
+    ((H.step s (.capset b)).1 = .ok ∧ H.creds (H.step s (.capset b)).2 = { H.creds s with effFsetid := b }) ∨
+    ((∃ e, (H.step s (.capset b)).1 = .err e) ∧ H.creds (H.step s (.capset b)).2 = H.creds s)
+  /-- raising a capability that is in the permitted set succeeds (as root) -/
+  capset_raise : ∀ s, (H.creds s).permFsetid = true → (H.creds s).euid = 0 → (H.step s (.capset true)).1 = .ok
+  /-- capget reports the effective set -/
+  capget_spec : ∀ s, (H.step s .capget).1 = .caps (H.creds s).effFsetid ∨ ∃ e, (H.step s .capget).1 = .err e
+
 namespace Prog
 
 /-- run against a host: value, final host state, trace -/
